@@ -47,6 +47,8 @@ instance : (c : List Nat) → (s : Shape) → Decidable (InB c s)
   | [], _ :: _ => isFalse (by simp [InB])
   | _ :: _, [] => isFalse (by simp [InB])
 
+instance {α : Type} [Inhabited α] : Inhabited (T α) := ⟨⟨[], fun _ => default⟩⟩
+
 /-- equality of tensors up to a relation on the elements: same shape, related on every in-bounds coordinate -/
 def T.EqvR {α β : Type} (R : α → β → Prop) (a : T α) (b : T β) : Prop :=
   a.shape = b.shape ∧ ∀ c, InB c a.shape → R (a.get c) (b.get c)
@@ -326,6 +328,10 @@ def chunk (chunks : Int) (d : Int) (t : T α) : Except Err (List (T α)) :=
   | none => .error .index
   | some i =>
     .ok (t.splitWithSizes (chunkSizes (t.shape.getD i 0) chunks.toNat) i)
+
+/-- shape of `torch.stack` of `k` tensors of shape `s` along (possibly negative) `d`; `none` = torch raises -/
+def stackShape (k : Nat) (d : Int) (s : Shape) : Option Shape :=
+  if k = 0 then none else (normDim (s.length + 1) d).map (fun i => s.insertIdx i k)
 
 end Torch
 
